@@ -70,6 +70,7 @@ def base_items():
         {"key": "connection.KEEP_ALIVE_INTERVAL", "file": PP + "connection.rs", "kind": "const", "name": "KEEP_ALIVE_INTERVAL", "rules": ["attrs"]},
         {"key": "cookie.sign", "file": PP + "cookie.rs", "kind": "fn", "name": "sign", "rules": ["attrs", "log"]},
         {"key": "cookie.verify", "file": PP + "cookie.rs", "kind": "fn", "name": "verify", "rules": ["attrs", "log"]},
+        {"key": "stream.create_ciphers", "file": PP + "crypto/stream.rs", "kind": "fn", "name": "create_ciphers", "rules": ["attrs"]},
     ]
 
 
@@ -119,6 +120,10 @@ def emit_base(u, ex, fnc2):
     # cookie::sign / verify: contracts proved in U2, assumed here
     for f in ["sign", "verify"]:
         u.add_fn(ex[f"cookie.{f}"], fnc2[f"cookie.{f}"], mode="external", indent="")
+    # crypto::stream::create_ciphers: contract proved in U5, assumed here
+    c5 = vxlib.load_contracts(os.path.join(HERE, "..", "U5", "contracts.toml"))
+    ex["stream.create_ciphers"]["ret"] = "Result<(Aes128Cfb8Enc, Aes128Cfb8Dec), CryptoError>"
+    u.add_fn(ex["stream.create_ciphers"], vxlib.FnContract("stream.create_ciphers", c5["fn"]["stream.create_ciphers"]), mode="external", indent="")
     u.raw("} // verus!\n")
     u.raw(read_text("prelude.rs"))
     u.raw("verus! {\n")
